@@ -19,7 +19,7 @@ DTS = (0.005, 0.01, 0.5, 1.0)
 
 
 def build(tier, seed):
-    L = 5 if tier == 'quick' else 7
+    L = 6 if tier == 'quick' else 8
     cases = [list(w) for w in words(SIGMA, 2, L)]
     return {
         'cases': cases,
